@@ -53,6 +53,19 @@ def project_with_tol_rules(cx):
         cx.ob('GUARD', 'Mesh::project_with_tol:reject', okn and len(nones) >= 1, 'None is returned only when there is no projection/normal or both angle tests fail', where=b.file)
 
 
+def project_with_max_dist_rule(cx):
+    """shared with C14: near_mesh decides "near" by this capped projection - it must be parry's answer on every path (no pre-filter of its own)"""
+    M = 'geom3::mesh::Mesh'
+    b = cx.fn(f'{M}::project_with_max_dist')
+    if b:
+        r = cx.retval(b)
+        ok = match('(call Option::map (call TriMesh::project_local_point_and_get_location_with_max_dist (field shape (param self)) (param point) (field is_solid (param self)) (param max_dist)) (closure *))', r) is not None
+        cx.ob('EXPR', 'Mesh::project_with_max_dist', ok, 'max_dist reaches parry as the cap; solid flag = self.is_solid; None passes through', where=b.file, found=r)
+        for cl in cx.facts.closures_of(b.name):
+            cx.expect('EXPR', 'Mesh::project_with_max_dist:unpack', cx.retval(cl), '(agg tuple (0 (field 0 (param 2))) (1 (field 0 (field 1 (param 2)))) (2 (field 1 (field 1 (param 2)))))',
+                      '(projection, (id, loc)) is flattened to (projection, id, loc) without mixing', where=cl.file)
+
+
 def run(cx):
     for mod, C, S in (('geom2::curve2', 'Curve2', 'CurveStation2'), ('geom3::curve3', 'Curve3', 'CurveStation3')):
         PRJ = '(call Polyline::project_local_point_and_get_location (field line (param self)) (param test_point) false)'
@@ -81,14 +94,7 @@ def run(cx):
     b = cx.fn(f'{M}::point_closest_to')
     if b:
         cx.expect('EXPR', 'Mesh::point_closest_to', cx.retval(b), f'(field point (field 0 {MP}))', 'closest point = projection point with solid flag = self.is_solid', where=b.file)
-    b = cx.fn(f'{M}::project_with_max_dist')
-    if b:
-        r = cx.retval(b)
-        ok = match('(call Option::map (call TriMesh::project_local_point_and_get_location_with_max_dist (field shape (param self)) (param point) (field is_solid (param self)) (param max_dist)) (closure *))', r) is not None
-        cx.ob('EXPR', 'Mesh::project_with_max_dist', ok, 'max_dist reaches parry as the cap; solid flag = self.is_solid; None passes through', where=b.file, found=r)
-        for cl in cx.facts.closures_of(b.name):
-            cx.expect('EXPR', 'Mesh::project_with_max_dist:unpack', cx.retval(cl), '(agg tuple (0 (field 0 (param 2))) (1 (field 0 (field 1 (param 2)))) (2 (field 1 (field 1 (param 2)))))',
-                      '(projection, (id, loc)) is flattened to (projection, id, loc) without mixing', where=cl.file)
+    project_with_max_dist_rule(cx)
     project_with_tol_rules(cx)
     b = cx.fn(f'{M}::indices_in_tol')
     if b:
